@@ -54,6 +54,9 @@ ASSUMPTIONS = ['ASCII distance strings (Python \\d and float() also accept other
                'the model is the behaviour after fixes/C19-get-distance-finite.diff (nan / inf distances rejected)',
                'coordinates away from the subnormal range for "zero iff coincident" (x*x underflows below ~1e-162)']
 PARTIAL = [
+    'that great-circle distance is radius x central angle is checked by the oracle for the radius actually passed (central angle from the '
+    'unit vectors with atan2, tolerance 4e-8 rad: the haversine formula loses ~sqrt(eps) near antipodes); the Coq theorem is the range '
+    '0 <= d <= pi * radius only',
     'great-circle triangle inequality: not proved in Coq (spherical trigonometry; stated in the property, unclaimed); checked by the '
     'oracle on generated triples incl. poles / antimeridian / antipodes / local triples with tolerance',
     'the bound 0 <= d <= pi*R is proved for the real-arithmetic formula under explicit premises on sin/cos/asin (and for the real functions '
@@ -399,6 +402,31 @@ def sphere_oracle(prox, A, B, C):
     return None
 
 
+def central_angle(P, Q):
+    """angle between the two points seen from the sphere's centre, from the unit vectors (atan2 of |n1 x n2| and n1 . n2:
+    well conditioned everywhere, independent of the haversine formula)"""
+    l1, p1, l2, p2 = (math.radians(v) for v in (P[0], P[1], Q[0], Q[1]))
+    n1 = (math.cos(p1) * math.cos(l1), math.cos(p1) * math.sin(l1), math.sin(p1))
+    n2 = (math.cos(p2) * math.cos(l2), math.cos(p2) * math.sin(l2), math.sin(p2))
+    cx = (n1[1] * n2[2] - n1[2] * n2[1], n1[2] * n2[0] - n1[0] * n2[2], n1[0] * n2[1] - n1[1] * n2[0])
+    return math.atan2(math.sqrt(cx[0] ** 2 + cx[1] ** 2 + cx[2] ** 2), n1[0] * n2[0] + n1[1] * n2[1] + n1[2] * n2[2])
+
+
+def radius_oracle(P, Q, radius, r):
+    """property text for the radius actually passed: 0 <= d <= pi * radius, and d is radius x central angle"""
+    if r[0] != 'ok' or not (in_range(P) and in_range(Q)) or any(v != v for v in P + Q) or not (radius >= 0) or math.isinf(radius):
+        return None
+    d = r[1]
+    if d != d:
+        return 'great_circle(radius=%r) is NaN for in-range points %r %r' % (radius, P, Q)
+    if d < 0 or d > math.pi * radius * (1 + 1e-15):
+        return 'great_circle(radius=%r) = %r is outside [0, pi*radius = %r] for %r %r' % (radius, d, math.pi * radius, P, Q)
+    exp = radius * central_angle(P, Q)
+    if abs(d - exp) > radius * 4e-8 + abs(exp) * 1e-12:        # haversine loses ~sqrt(eps) rad near antipodes
+        return 'great_circle(radius=%r) = %r is not radius x central angle = %r for %r %r' % (radius, d, exp, P, Q)
+    return None
+
+
 def run_sphere(ctx, prox, lines, cmp):
     n = 2000 if ctx.quick() else 30000
     kinds = ['rand', 'pole', 'antimeridian', 'grid', 'zeros']
@@ -447,10 +475,14 @@ def run_sphere(ctx, prox, lines, cmp):
         w = sphere_oracle(prox, A, B, C)
         if w:
             ctx.violation('oracle', w, case)
-        radius = R_EARTH if i % 7 else float(rng.choice([1.0, 1737400.0, 3389500.0, 0.0, 1e-3, 1e12, 0.5]))
+        radius = R_EARTH if i % 3 == 0 else float(rng.choice([1.0, 1737400.0, 3389500.0, 6371008.8, 0.0, 1e-3, 1e12, 0.5, 6378137.0 * 2]))
         for P, Q in ((A, B), (B, C), (A, C)):
+            rr = gc_call(prox, P, Q, radius)
+            w = radius_oracle(P, Q, radius, rr)
+            if w:
+                ctx.violation('oracle', w, dict(case, pair=[[jf(v) for v in P], [jf(v) for v in Q]], radius=radius))
             lines.append('gc %s %s %s %s %s' % (hx(P[0]), hx(Q[0]), hx(P[1]), hx(Q[1]), hx(radius)))
-            cmp.append(('gc', gc_call(prox, P, Q, radius), dict(case, pair=[[jf(v) for v in P], [jf(v) for v in Q]], radius=radius)))
+            cmp.append(('gc', rr, dict(case, pair=[[jf(v) for v in P], [jf(v) for v in Q]], radius=radius)))
 
 
 def run_sphere_int_args(ctx, prox, lines, cmp):
@@ -1029,6 +1061,11 @@ def replay_case(ctx, case):
         w = sphere_oracle(prox, A, B, C)
         if w:
             ctx.violation('oracle', w, case)
+        if 'radius' in case and 'pair' in case:
+            P, Q = [tuple(_pf(v) for v in pt) for pt in case['pair']]
+            w = radius_oracle(P, Q, float(case['radius']), gc_call(prox, P, Q, float(case['radius'])))
+            if w:
+                ctx.violation('oracle', w, case)
     elif fam == 'distance-string':
         default_unit, units_tbl = read_units(os.environ.get('VERIF_REPO', '/repo'))
         check_dist(ctx, conv, case['string'], case.get('tag', 'replay'), units_tbl, default_unit, lines, cmp)
